@@ -762,6 +762,9 @@ func (r *runner) history() *hx.Failure {
 					}
 					return hx.Failf("C07/merge/unique-rejection-without-duplicate", "step %d: merge of %s (doc %s) was refused by a unique index (%v) although the merged state has no duplicate tuple: %s", step, m.Cid, m.DocID, errA, r.dumpModel())
 				}
+				if d := r.byID[m.DocID]; d != nil && d.Partial && strings.Contains(errA.Error(), "corrupted index") {
+					return hx.Failf(sigPartialUpdate, "step %d: merge of %s (doc %s) fails only on the indexed twin: %v (an earlier partial-document update of this document rewrote the entries of the indexed fields it did not carry)", step, m.Cid, m.DocID, errA)
+				}
 				return hx.Failf("C07/merge/error-only-with-index", "step %d: merge of %s (doc %s) fails only on the indexed twin: %v", step, m.Cid, m.DocID, errA)
 			}
 			r.label("op:push-merged")
@@ -852,16 +855,12 @@ func (r *runner) checkIndexEntries() *hx.Failure {
 			}
 		}
 		var fdefs []client.FieldDefinition
-		hasJSON := false
 		for _, f := range desc.Fields {
 			fd, ok := col.Definition().GetFieldByName(f.Name)
 			if !ok {
 				hx.Harnessf("index field %s not in definition", f.Name)
 			}
 			fdefs = append(fdefs, fd)
-		}
-		for _, f := range ix.Fields {
-			hasJSON = hasJSON || f.F == "j"
 		}
 		prefix := keys.IndexDataStoreKey{CollectionShortID: short, IndexID: desc.ID}
 		it, err := ds.Iterator(n.Ctx, corekv.IterOptions{Prefix: append(prefix.Bytes(), '/')})
@@ -903,11 +902,16 @@ func (r *runner) checkIndexEntries() *hx.Failure {
 			perDoc[docID]++
 			for fi, f := range ix.Fields {
 				fd := fdef(f.F)
-				if fd.Kind == "json" {
-					continue
-				}
 				mv := d.Vals[f.F]
 				kv := key.Fields[fi].Value
+				if fd.Kind == "json" {
+					// leaves are not compared one by one, but a nil entry belongs to a null/unset field only
+					if kv.IsNil() != (mv == nil) {
+						fail = hx.Failf("C07/index-entries/stale-value", "index %s holds an entry for %s (k=%d) whose JSON field %s is nil=%v, the document has %s", ix.Name, docID, d.K, f.F, kv.IsNil(), hx.Canon(mv))
+						break
+					}
+					continue
+				}
 				match := false
 				if fd.Arr {
 					arr, isArr := mv.([]any)
@@ -940,9 +944,6 @@ func (r *runner) checkIndexEntries() *hx.Failure {
 		if fail != nil {
 			return fail
 		}
-		if hasJSON {
-			continue
-		}
 		for _, d := range r.docs {
 			if d.Deleted {
 				continue
@@ -950,6 +951,13 @@ func (r *runner) checkIndexEntries() *hx.Failure {
 			want := 1
 			for _, f := range ix.Fields {
 				fd := fdef(f.F)
+				if fd.Kind == "json" {
+					// one entry per distinct leaf; a null/unset JSON field has one nil entry
+					if jv := d.Vals[f.F]; jv != nil {
+						want *= len(jsonLeafKeys(jv))
+					}
+					continue
+				}
 				if !fd.Arr {
 					continue
 				}
